@@ -613,3 +613,121 @@ func c01mergeseqPhase(r *Run, rng *Rng, n int) {
 		c01mergeseq(r, b.String())
 	}
 }
+
+// c01mergeops: MergeCell / UnmergeCell calls (corners in any order) on a new worksheet; the stored
+// merged-range list afterwards against SaveMerge.mergeCell / unmergeCell (mergeOverlapCells in place, then the
+// ranges overlapping the argument are dropped). inv_step_unmerge on the real code: when the stored list
+// at the end has no overlapping ranges, a real save + open returns it unchanged; and no stored range left
+// by a final UnmergeCell overlaps its argument.
+func c01mergeops(r *Run, spec string) {
+	w := strings.Fields(spec)
+	res := "bad-op"
+	var pre, post []c01rect
+	saved := false
+	var last [4]int
+	lastU := false
+	func() {
+		defer func() {
+			if recover() != nil {
+				res = "PANIC"
+			}
+		}()
+		n, err := strconv.Atoi(w[0])
+		if err != nil || len(w) != 1+5*n {
+			return
+		}
+		f := xl.NewFile()
+		defer f.Close()
+		for k := 0; k < n; k++ {
+			v := [4]int{}
+			for q := range v {
+				v[q], _ = strconv.Atoi(w[2+5*k+q])
+			}
+			a, e1 := xl.CoordinatesToCellName(v[0], v[1])
+			b, e2 := xl.CoordinatesToCellName(v[2], v[3])
+			if e1 != nil || e2 != nil {
+				res = "ERR"
+				return
+			}
+			var e error
+			switch w[1+5*k] {
+			case "m":
+				e = f.MergeCell("Sheet1", a, b)
+				lastU = false
+			case "u":
+				e = f.UnmergeCell("Sheet1", a, b)
+				lastU = true
+				last = [4]int{min(v[0], v[2]), min(v[1], v[3]), max(v[0], v[2]), max(v[1], v[3])}
+			default:
+				return
+			}
+			if e != nil {
+				res = "ERR"
+				return
+			}
+		}
+		l, ok := c01storedMergesRaw(f, "Sheet1")
+		if !ok {
+			return
+		}
+		pre = l
+		res = "ok " + c01rectsWire(l)
+		if g, err := c01save(f, 0); err == nil {
+			post, saved = c01storedMergesRaw(g, "Sheet1")
+			g.Close()
+		}
+	}()
+	ln := r.Op("mergeops "+spec, res)
+	r.Case("mergeops:"+spec, true)
+	r.Stat("mergeops")
+	if !strings.HasPrefix(res, "ok ") {
+		return
+	}
+	if lastU {
+		r.Stat("mergeops:ends-with-unmerge")
+		for _, m := range pre {
+			if last[0] <= m[2] && m[0] <= last[2] && last[1] <= m[3] && m[1] <= last[3] {
+				r.Fail("mergeops:unmerge-leaves-overlapping-range", fmt.Sprintf("stored range %v overlaps the range %v just unmerged", m, last), ln, "mergeops "+spec)
+				break
+			}
+		}
+	}
+	if !c01rectsOverlap(pre) {
+		r.Stat("mergeops:disjoint")
+		if !saved || c01rectsWire(post) != c01rectsWire(pre) {
+			r.Fail("mergeops:disjoint-list-changed-by-save", fmt.Sprintf("stored merged ranges %v without overlap become %v after save+open", pre, post), ln, "mergeops "+spec)
+		}
+	}
+}
+
+func c01mergeopsPhase(r *Run, rng *Rng, n int) {
+	c01mergeops(r, "1 u 1 1 2 2")
+	c01mergeops(r, "4 m 1 1 1 2 m 2 1 3 3 m 4 4 5 5 u 3 2 2 2")
+	c01mergeops(r, "3 m 2 1 3 7 m 2 5 5 5 u 9 9 9 9")
+	c01mergeops(r, "2 m 16383 1 16384 2 u 16384 2 16384 2")
+	for k := 0; k < n; k++ {
+		m := rng.Range(2, 7)
+		var b strings.Builder
+		b.WriteString(strconv.Itoa(m))
+		bc := 1
+		if rng.Chance(10) {
+			bc = 16376
+		}
+		for q := 0; q < m; q++ {
+			x1, y1 := bc+rng.Intn(9), 1+rng.Intn(9)
+			x2, y2 := x1, y1
+			if rng.Chance(70) {
+				x2 = min(max(bc+rng.Intn(9), x1-2), x1+2)
+			}
+			if rng.Chance(70) {
+				y2 = min(max(1+rng.Intn(9), y1-2), y1+2)
+			}
+			kind := "m"
+			if q > 0 && (q == m-1 || rng.Chance(30)) {
+				kind = "u"
+			}
+			fmt.Fprintf(&b, " %s %d %d %d %d", kind, x1, y1, x2, y2)
+		}
+		c01mergeops(r, b.String())
+	}
+}
